@@ -342,12 +342,21 @@ lzma_lzma_encode(lzma_lzma1_encoder *restrict coder, lzma_mf *restrict mf,
 	while (true) {
 		// With LZMA2 we need to take care that compressed size of
 		// a chunk doesn't get too big.
+		//
+		// If the chunk turns out to be incompressible, the LZMA2
+		// encoder stores the already-encoded bytes plus
+		// mf->read_ahead as an uncompressed chunk whose size must
+		// not exceed LZMA2_CHUNK_MAX. One more loop iteration can
+		// make mf->read_ahead as big as LOOP_INPUT_MAX - 2 and the
+		// symbol it encodes can add RC_SYMBOLS_MAX bytes to
+		// the output, so room has to be left for both.
 		// FIXME? Check if this could be improved.
 		if (limit != UINT32_MAX
 				&& (mf->read_pos - mf->read_ahead >= limit
 					|| *out_pos + rc_pending(&coder->rc)
 						>= LZMA2_CHUNK_MAX
-							- LOOP_INPUT_MAX))
+							- LOOP_INPUT_MAX
+							- RC_SYMBOLS_MAX))
 			break;
 
 		// Check that there is some input to process.
